@@ -4,6 +4,7 @@ package main
 
 import (
 	"go/token"
+	"go/types"
 	"strings"
 
 	"golang.org/x/tools/go/ssa"
@@ -127,6 +128,27 @@ func c11keyIsName(b *ssa.BasicBlock, key ssa.Value, depth int, leaves *int) bool
 		}
 		return true
 	}
+	// an element of a list of names (built by a helper, appended to step by step): every element the list can hold
+	if u, ok := key.(*ssa.UnOp); ok && u.Op == token.MUL && depth < 3 {
+		if ia, ok := u.X.(*ssa.IndexAddr); ok {
+			if elems, known := c11elems(ia.X, 0, map[ssa.Value]bool{}); known && len(elems) > 0 {
+				all := true
+				for _, e := range elems {
+					if e.whole {
+						if !strings.HasSuffix(accessPath(e.v), ".DNSNames") {
+							all = false
+						}
+						*leaves++
+						continue
+					}
+					if !c11keyIsName(e.b, e.v, depth+1, leaves) {
+						all = false
+					}
+				}
+				return all
+			}
+		}
+	}
 	if p, ok := key.(*ssa.Parameter); ok && depth < 3 {
 		fn := p.Parent()
 		sites := gSites[fn]
@@ -186,4 +208,99 @@ func runC11M5(c *Ctx, m *c11Model) {
 	}
 	c.check("C11.M5", fnKey(set)+"|every path publishes the new set", pos, !skip,
 		"the function that is given a new certificate set can return without storing it: whatever notion of 'unchanged' guards the store, the default certificate is the FIRST of the most recently loaded set, so a reordered or otherwise 'equal' set must still replace the old one")
+}
+
+// c11elem: one origin of the elements of a []string: a single value added at block b, or a whole slice spliced in.
+type c11elem struct {
+	v     ssa.Value
+	b     *ssa.BasicBlock
+	whole bool
+}
+
+// c11elems enumerates what a []string can hold: nil, append chains (single values and spliced slices), merges, the
+// result of a repository helper (its returned lists), re-slicings. known=false when some origin is not understood.
+func c11elems(s ssa.Value, depth int, seen map[ssa.Value]bool) (out []c11elem, known bool) {
+	if s == nil || depth > 8 {
+		return nil, false
+	}
+	if seen[s] {
+		return nil, true
+	}
+	seen[s] = true
+	switch x := s.(type) {
+	case *ssa.Const:
+		return nil, x.Value == nil
+	case *ssa.Phi:
+		for _, e := range x.Edges {
+			o, k := c11elems(e, depth+1, seen)
+			if !k {
+				return nil, false
+			}
+			out = append(out, o...)
+		}
+		return out, true
+	case *ssa.Slice:
+		return c11elems(x.X, depth+1, seen)
+	case *ssa.MakeSlice:
+		return nil, true // elements come through later stores; none here (append chains start from it)
+	case *ssa.UnOp:
+		if x.Op == token.MUL {
+			if _, isField := x.X.(*ssa.FieldAddr); isField {
+				return []c11elem{{v: x, whole: true}}, true
+			}
+			if a, isAlloc := x.X.(*ssa.Alloc); isAlloc {
+				for _, r := range *a.Referrers() {
+					if st, ok := r.(*ssa.Store); ok && st.Addr == a {
+						o, k := c11elems(st.Val, depth+1, seen)
+						if !k {
+							return nil, false
+						}
+						out = append(out, o...)
+					}
+				}
+				return out, true
+			}
+		}
+		return nil, false
+	case *ssa.Call:
+		if calleeName(&x.Call) == "builtin.append" && len(x.Call.Args) == 2 {
+			o, k := c11elems(x.Call.Args[0], depth+1, seen)
+			if !k {
+				return nil, false
+			}
+			out = append(out, o...)
+			if pack := c01Variadic(x.Call.Args[1]); len(pack) > 0 {
+				for _, v := range pack {
+					out = append(out, c11elem{v: v, b: x.Block()})
+				}
+				return out, true
+			}
+			o, k = c11elems(x.Call.Args[1], depth+1, seen)
+			if !k {
+				return nil, false
+			}
+			return append(out, o...), true
+		}
+		if sc := x.Call.StaticCallee(); sc != nil && isRepoFn(sc) && len(sc.Blocks) > 0 {
+			ok := true
+			eachInstr(sc, func(i ssa.Instruction) {
+				r, isRet := i.(*ssa.Return)
+				if !isRet {
+					return
+				}
+				for _, res := range r.Results {
+					if _, isSlice := res.Type().Underlying().(*types.Slice); !isSlice {
+						continue
+					}
+					o, k := c11elems(res, depth+1, seen)
+					if !k {
+						ok = false
+					}
+					out = append(out, o...)
+				}
+			})
+			return out, ok
+		}
+	}
+	return nil, false
 }
